@@ -191,8 +191,8 @@ func newGSUB(table tables.Layout) (GSUB, error) {
 				}
 			}
 
-			// sanitize each lookup
-			switch subtable := subtable.(type) {
+			// sanitize each lookup (after the extension has been resolved)
+			switch subtable := subtables[j].(type) {
 			case tables.MultipleSubs:
 				err = subtable.Sanitize()
 			case tables.AlternateSubs:
@@ -248,8 +248,8 @@ func newGPOS(table tables.Layout) (GPOS, error) {
 				}
 			}
 
-			// sanitize each lookup
-			switch subtable := subtable.(type) {
+			// sanitize each lookup (after the extension has been resolved)
+			switch subtable := subtables[j].(type) {
 			case tables.SinglePos:
 				err = subtable.Sanitize()
 			case tables.PairPos:
